@@ -862,6 +862,94 @@ Proof.
   destruct mm; apply RA; discriminate.
 Qed.
 
+(* what one allowed event does, as a shape: nothing, a pause flag, or a run / an exception from a state and a plan that satisfy
+   the invariant (used again by Proofs/LazyProofs.v) *)
+Inductive sc (m : mon) (s : st) (w : why) (k : plan) (f : frame) : st * list out -> Prop :=
+| sc_stay : sc m s w k f (s, [])
+| sc_pause b : sc m s w k f (set_paused s b, [])
+| sc_resume s' : s' = s \/ s' = set_paused s false -> w = WDrain \/ w = WSleep \/ w = WRow -> Qr m k f s' ->
+    sc m s w k f (go B BATCH s' k f)
+| sc_auth d s' : f = FHandler \/ f = FChangeUser -> k = [] ->
+    (s' = s /\ w = WApp SGetUser) \/ (s' = set_seq s ((seq s + 1) mod 256) /\ w = WRead) ->
+    Qr m (auth_plan d true ++ []) f s' -> sc m s w k f (go B BATCH s' (auth_plan d true ++ []) f)
+| sc_app c o : w = WApp c -> c <> SGetUser -> out_ok o -> is_raise o = false ->
+    Qr m (match k with MCont q :: k1 => continuation BATCH s q o ++ k1 | _ => k end) f s ->
+    sc m s w k f (match k with MCont q :: k1 => go B BATCH s (continuation BATCH s q o ++ k1) f | _ => go B BATCH s k f end)
+| sc_raise c x : w = WApp c -> c <> SGetUser -> x <> XCancel -> x <> XAuthFailed -> R m x f s ->
+    sc m s w k f (raise_at B BATCH s x f None).
+
+Lemma auth_Qr m s d f : f = FHandler \/ f = FChangeUser -> core m 0 s -> buf s = [] -> m_rs m = RStart -> rk = RKAuth ->
+  Qr m (auth_plan d true ++ []) f s.
+Proof.
+  intros Hf C Hbuf Hm Hrk.
+  assert (G : QH m (auth_plan d true ++ []) s).
+  { split; [rewrite off_auth; exact C|]. exists false. split; [now left|]. rewrite (rsq_empty m s Hbuf), Hm, app_nil_r, Hrk. apply wf_auth_plan. }
+  destruct Hf as [-> | ->]; exact G.
+Qed.
+
+Lemma step_cases m s e w k f ic : allowed e -> ctl_ s = Susp w k f ic -> Qs m w k f s -> sc m s w k f (step B BATCH s e).
+Proof.
+  intros Ha Ec G. unfold step. rewrite Ec.
+  destruct e; cbn [allowed] in Ha; try contradiction.
+  - (* EvAuthReply *)
+    destruct w; try (destruct (phase s); apply sc_stay).
+    destruct f as [| | | | | |wk| |re]; cbn [Qs] in G; try contradiction.
+    + destruct G as (_ & Q & _). assert (P : phase s = Command) by apply Q. rewrite P. apply sc_stay.
+    + destruct G as (_ & C & _). assert (P : phase s = Command) by apply C. rewrite P. apply sc_stay.
+    + destruct G as (-> & C & Hbuf & Hm & Hrk). assert (P : phase s = Command) by apply C. rewrite P.
+      apply sc_auth; [now right|reflexivity|right; now split|].
+      apply auth_Qr; auto.
+      destruct C as (C1 & C2 & C3 & C4 & C5 & C6 & C7 & C8 & C9). unfold core. cbn [deprecate_eof dead eof kill phase inq seq set_seq].
+      repeat split; auto.
+      * apply N.mod_lt. lia.
+      * change (menq m (set_seq s ((seq s + 1) mod 256))) with (menq m s). rewrite C8, N.add_0_r, N.mod_mod by lia. reflexivity.
+  - (* EvDecide *)
+    destruct w; try apply sc_stay. destruct c; try apply sc_stay.
+    destruct f as [| | | | | |wk| |re]; cbn [Qs] in G; try contradiction.
+    + destruct G as (C & -> & Hbuf & Hm & Hrk). cbn [is_handler]. apply sc_auth; [now left|reflexivity|left; now split|apply auth_Qr; auto].
+    + destruct G as (C & -> & Hbuf & Hm & Hrk). cbn [is_handler]. apply sc_auth; [now right|reflexivity|left; now split|apply auth_Qr; auto].
+    + destruct G as [G _]. discriminate G.
+    + destruct G as [G _]. discriminate G.
+  - (* EvApp *)
+    destruct w; try apply sc_stay.
+    assert (NG : c = SGetUser \/ c <> SGetUser) by (destruct c; auto; right; discriminate).
+    destruct NG as [->|NG]; [apply sc_stay|].
+    assert (E : (match c with SGetUser => (s, []) | _ =>
+                  match o with
+                  | ORaise (Some cd) => raise_at B BATCH s (XMysql cd) f None
+                  | ORaise None => raise_at B BATCH s XOther f None
+                  | _ => match k with MCont q :: k' => go B BATCH s (continuation BATCH s q o ++ k') f | _ => go B BATCH s k f end
+                  end end) =
+                 match o with
+                  | ORaise (Some cd) => raise_at B BATCH s (XMysql cd) f None
+                  | ORaise None => raise_at B BATCH s XOther f None
+                  | _ => match k with MCont q :: k' => go B BATCH s (continuation BATCH s q o ++ k') f | _ => go B BATCH s k f end
+                  end) by (destruct c; try reflexivity; congruence).
+    rewrite E.
+    assert (RA : forall x, x <> XCancel -> x <> XAuthFailed -> R m x f s).
+    { intros x Hx1 Hx2.
+      destruct f as [| | | | | |wk| |re]; cbn [Qs] in G; try contradiction; cbn [R].
+      - destruct G as [C G]. split; [exact C|]. split; [exact Hx1|]. right. destruct c; try congruence; apply G.
+      - destruct G as [C G]. split; [exact C|]. split; [exact Hx1|]. right. destruct c; try congruence; apply G.
+      - destruct G as (_ & _ & C & _). split; [exact C|exact Hx1].
+      - apply G. }
+    assert (GO : is_raise o = false -> Qr m (match k with MCont q :: k' => continuation BATCH s q o ++ k' | _ => k end) f s).
+    { intros Hr. destruct f as [| | | | | |wk| |re]; cbn [Qs] in G; try contradiction.
+      - apply (appH m s c k FHandler o); auto.
+      - apply (appH m s c k FChangeUser o); auto.
+      - destruct G as (_ & -> & C & Hbuf & Hacc). cbn [Qr]. auto.
+      - destruct G as (_ & -> & Hnb). cbn [Qr]. auto. }
+    destruct o as [|sz items|mm|].
+    + apply (sc_app m s (WApp c) k f c ONone); auto.
+    + apply (sc_app m s (WApp c) k f c (OSet sz items)); auto.
+    + destruct mm as [cd|]; (apply (sc_raise m s (WApp c) k f c); [reflexivity|exact NG|discriminate|discriminate|apply RA; discriminate]).
+    + apply (sc_app m s (WApp c) k f c OVoid); auto.
+  - (* EvRowReady *) destruct w; try apply sc_stay. apply sc_resume; [now left|auto|apply G].
+  - (* EvTick *) destruct w; try apply sc_stay. apply sc_resume; [now left|auto|apply G].
+  - (* EvPause *) apply sc_pause.
+  - (* EvResume *) destruct w; try apply sc_pause. apply sc_resume; [now right|auto|apply G].
+Qed.
+
 Lemma step_ok m s e : allowed e -> good m s -> ok m (step B BATCH s e).
 Proof.
   intros Ha G. unfold step. pose proof G as G0. unfold good3 in G. destruct (ctl_ s) as [w k f ic| |] eqn:Ec; [|now apply stay|now apply stay].
@@ -924,25 +1012,40 @@ Proof.
   - destruct (find_stmt id (stmts s)); reflexivity.
 Qed.
 
-Lemma round_start c s ic : rk = rkind_of c -> cmd_ok c -> quiescent s -> ctl_ s = Susp WRead [] FRead ic -> ok m0 (step B BATCH s (EvPayload c)).
+Lemma dispatch_Qr c s : rk = rkind_of c -> cmd_ok c -> quiescent s ->
+  Qr m0 (snd (handler BATCH (set_exec (set_seq (set_inq (set_inq s [c]) []) ((seq (set_inq s [c]) + 1) mod 256)) true) c)) FHandler
+        (fst (handler BATCH (set_exec (set_seq (set_inq (set_inq s [c]) []) ((seq (set_inq s [c]) + 1) mod 256)) true) c)).
 Proof.
-  intros Hrk Hc Q P.
-  unfold step. rewrite P. destruct Q as (Q1 & Q2 & Q3 & Q4 & Q5 & Q6 & Q7 & Q8). rewrite Q5, Q6. cbn [app].
-  unfold go. destruct (FUEL (set_inq s [c]) []) as [|n] eqn:EF; [unfold FUEL in EF; lia|].
-  cbn [Conn.run end_plan inq set_inq].
+  intros Hrk Hc Q. destruct Q as (Q1 & Q2 & Q3 & Q4 & Q5 & Q6 & Q7 & Q8).
   pose proof (handler_fields (set_exec (set_seq (set_inq (set_inq s [c]) []) ((seq (set_inq s [c]) + 1) mod 256)) true) c) as HF.
   pose proof (handler_hir (set_exec (set_seq (set_inq (set_inq s [c]) []) ((seq (set_inq s [c]) + 1) mod 256)) true) c) as HH.
   pose proof (handler_wf dep BATCH (set_exec (set_seq (set_inq (set_inq s [c]) []) ((seq (set_inq s [c]) + 1) mod 256)) true) c Hc Q1) as HW.
   destruct (handler BATCH (set_exec (set_seq (set_inq (set_inq s [c]) []) ((seq (set_inq s [c]) + 1) mod 256)) true) c) as [s2 k2].
   cbn [fst snd] in *. cbn [deprecate_eof dead eof kill phase inq seq buf set_exec set_seq set_inq] in HF.
   destruct HF as (F1 & F2 & F3 & F4 & F5 & F6 & F7 & F8).
-  apply run_ok. cbn [Qr].
+  cbn [Qr].
   assert (Hb : buf s2 = []) by congruence.
   assert (Hs : seq s2 = 1) by (rewrite F7, Q8; reflexivity).
   split.
   - unfold core. rewrite (menq_empty m0 s2 Hb), (off0 _ HH). unfold rsq. rewrite (menq_empty m0 s2 Hb). cbn [m_seq m_rs m0].
     rewrite F1, F2, F3, F4, F5, F6, Hs. repeat split; auto; try lia; discriminate.
   - exists false. split; [now left|]. rewrite (rsq_empty m0 s2 Hb). cbn [m_rs m0]. rewrite Hrk. exact HW.
+Qed.
+
+Lemma step_payload_prompt c s ic : quiescent s -> ctl_ s = Susp WRead [] FRead ic ->
+  exists n, step B BATCH s (EvPayload c) =
+    run B BATCH n (fst (handler BATCH (set_exec (set_seq (set_inq (set_inq s [c]) []) ((seq (set_inq s [c]) + 1) mod 256)) true) c))
+                  (snd (handler BATCH (set_exec (set_seq (set_inq (set_inq s [c]) []) ((seq (set_inq s [c]) + 1) mod 256)) true) c)) FHandler.
+Proof.
+  intros Q P. unfold step. rewrite P. destruct Q as (Q1 & Q2 & Q3 & Q4 & Q5 & Q6 & Q7 & Q8). rewrite Q5, Q6. cbn [app].
+  unfold go. destruct (FUEL (set_inq s [c]) []) as [|n] eqn:EF; [unfold FUEL in EF; lia|]. exists n.
+  cbn [Conn.run end_plan inq set_inq].
+  destruct (handler BATCH (set_exec (set_seq (set_inq (set_inq s [c]) []) ((seq (set_inq s [c]) + 1) mod 256)) true) c) as [s2 k2]. reflexivity.
+Qed.
+
+Lemma round_start c s ic : rk = rkind_of c -> cmd_ok c -> quiescent s -> ctl_ s = Susp WRead [] FRead ic -> ok m0 (step B BATCH s (EvPayload c)).
+Proof.
+  intros Hrk Hc Q P. destruct (step_payload_prompt c s ic Q P) as [n ->]. apply run_ok. now apply dispatch_Qr.
 Qed.
 
 Theorem round_ok c evs s : rk = rkind_of c -> cmd_ok c -> quiescent s -> at_prompt s -> Forall allowed evs ->
